@@ -459,6 +459,11 @@ def handler_intact_scenarios():
         b.fn("handle", [])
         for i in range(npre):
             b.var("before%d" % i, lit("B%d" % i))
+        if npre:
+            # a variable of the HANDLING function declared before the try statement and captured by closures: unwinding to the handler
+            # leaves it alone - afterwards the function and the closures still share it
+            b.var("peek", b.lam([], lambda: b.v("before0")))
+            b.var("poke", b.lam(["v"], lambda: b.assign("before0", b.v("v"))))
         if shape == "finally-outer-catch":
             b.try_()
         b.try_()
@@ -480,6 +485,11 @@ def handler_intact_scenarios():
             b.print(b.v("label"))
             for i in range(npre):
                 b.print(b.v("before%d" % i))
+            if npre:
+                b.expr(call(b.v("poke"), lit("poked in " + tag)))
+                b.print(tup(b.v("before0"), call(b.v("peek"))))
+                b.expr(b.assign("before0", lit("set directly in " + tag)))
+                b.print(tup(b.v("before0"), call(b.v("peek"))))
 
         if shape == "catch":
             b.catch("err"); handler_body("c"); b.print(bin_("==", b.v("err"), lit("failed"))); b.end()
@@ -493,6 +503,9 @@ def handler_intact_scenarios():
         b.print(b.v("after"))
         for i in range(npre):
             b.print(b.v("before%d" % i))
+        if npre:
+            b.expr(call(b.v("poke"), lit("poked after the try")))
+            b.print(tup(b.v("before0"), call(b.v("peek"))))
         b.end()
         b.expr(call(b.v("handle")))
         b.print(call(b.v("saved")))
